@@ -6,7 +6,10 @@
 
 mod allcfgs;
 mod ctx;
+#[cfg(target_pointer_width = "64")]
 mod huge;
+#[cfg(target_pointer_width = "64")]
+mod huge2;
 mod model;
 mod mon;
 mod selfcheck;
@@ -16,7 +19,7 @@ use bmv_core::subj::Cfg;
 use bmv_core::util::{self, J, guard, hash_str, mix};
 use ctx::{Ctx, Stats, Tier};
 use std::sync::Arc;
-use std::sync::atomic::{AtomicBool, AtomicU64, Ordering};
+use std::sync::atomic::{AtomicBool, AtomicUsize, Ordering};
 use std::time::{Duration, Instant};
 
 static ALL_CFGS: std::sync::OnceLock<Vec<Cfg>> = std::sync::OnceLock::new();
@@ -47,9 +50,10 @@ fn main() {
             }
         },
         "noop" => 0,
+        #[cfg(target_pointer_width = "64")]
         "huge" => {
             let prop = arg(&args, "--prop").expect("--prop");
-            let j = huge::run(prop);
+            let j = if arg(&args, "--kind") == Some("blocks32") { huge2::run(prop, args.iter().any(|a| a == "--quick")) } else { huge::run(prop) };
             write_out(arg(&args, "--out"), &j);
             0
         }
@@ -66,6 +70,8 @@ fn main() {
     };
     std::process::exit(code);
 }
+
+pub const STACK: usize = if cfg!(target_pointer_width = "64") { 512 << 20 } else { 64 << 20 };
 
 fn tier_of(s: &str) -> Tier {
     match s {
@@ -125,13 +131,26 @@ fn cmd_run(args: &[String]) -> i32 {
     if cfg!(miri) {
         cfgs.retain(|c| !c.real);
     }
+    match arg(args, "--cfg-filter") {
+        Some("stream") => cfgs.retain(|c| !c.streams.is_empty()),
+        Some("belt") => cfgs.retain(|c| c.stream(bmv_core::subj::Flavor::Belt).is_some()),
+        _ => {}
+    }
+    if let Some(f) = arg(args, "--focus") {
+        ctx::set_focus(f);
+    }
+    if cfgs.is_empty() {
+        result.put("harness_errors", J::Arr(vec![J::s("no cipher configuration left after filtering")]));
+        write_out(out, &result);
+        return 2;
+    }
     let ncases: u64 = arg(args, "--cases").and_then(|s| s.parse().ok()).unwrap_or(match tier {
         Tier::Quick => m.cases.0,
         Tier::Thorough => m.cases.1,
         Tier::Slice => m.cases.2,
     });
     let cfgs: Arc<Vec<Cfg>> = Arc::new(cfgs);
-    let next = Arc::new(AtomicU64::new(0));
+    let next = Arc::new(AtomicUsize::new(0));
     let stop = Arc::new(AtomicBool::new(false));
     let run_fn = m.run;
     let prop_s: &'static str = m.prop;
@@ -142,13 +161,14 @@ fn cmd_run(args: &[String]) -> i32 {
         let cfgs = cfgs.clone();
         let next = next.clone();
         let stop = stop.clone();
-        handles.push(std::thread::spawn(move || {
+        // very wide backends keep whole ParBlocks batches (bs x width, up to ~140 KiB each) on the stack
+        handles.push(std::thread::Builder::new().stack_size(STACK).spawn(move || {
             let mut st = Stats::default();
             loop {
                 if stop.load(Ordering::Relaxed) {
                     break;
                 }
-                let i = next.fetch_add(1, Ordering::Relaxed);
+                let i = next.fetch_add(1, Ordering::Relaxed) as u64;
                 if i >= ncases {
                     break;
                 }
@@ -157,7 +177,7 @@ fn cmd_run(args: &[String]) -> i32 {
                 run_case(prop_s, run_fn, cfg, case_seed, tier, &mut st);
             }
             st
-        }));
+        }).expect("spawn worker"));
     }
     // watchdog: never a verdict, only stops handing out new cases
     let wd_stop = stop.clone();
@@ -165,7 +185,7 @@ fn cmd_run(args: &[String]) -> i32 {
     let wd = std::thread::spawn(move || {
         let deadline = Instant::now() + Duration::from_secs(budget_s);
         while Instant::now() < deadline {
-            if wd_next.load(Ordering::Relaxed) >= ncases {
+            if wd_next.load(Ordering::Relaxed) as u64 >= ncases {
                 return false;
             }
             std::thread::sleep(Duration::from_millis(50));
@@ -214,11 +234,37 @@ fn cmd_run(args: &[String]) -> i32 {
     result.put("wall_s", J::Num(t0.elapsed().as_secs_f64()));
     result.put("profile", J::s(if cfg!(debug_assertions) { "checked" } else { "plain" }));
     result.put("zeroize_feature", J::Bool(cfg!(feature = "zeroize")));
+    result.put("platform", platform());
     write_out(out, &result);
     if !total.harness_errors.is_empty() {
         return 2;
     }
     0
+}
+
+/// what the build under test was compiled for (cfg-dependent code paths differ between these)
+pub fn platform() -> J {
+    let mut feats = Vec::new();
+    for (n, on) in [
+        ("sse2", cfg!(target_feature = "sse2")),
+        ("ssse3", cfg!(target_feature = "ssse3")),
+        ("sse4.1", cfg!(target_feature = "sse4.1")),
+        ("avx", cfg!(target_feature = "avx")),
+        ("avx2", cfg!(target_feature = "avx2")),
+        ("avx512f", cfg!(target_feature = "avx512f")),
+        ("aes", cfg!(target_feature = "aes")),
+        ("bmi2", cfg!(target_feature = "bmi2")),
+    ] {
+        if on {
+            feats.push(J::s(n));
+        }
+    }
+    J::obj()
+        .set("arch", J::s(std::env::consts::ARCH))
+        .set("endian", J::s(if cfg!(target_endian = "big") { "big" } else { "little" }))
+        .set("pointer_width", J::i(usize::BITS as i128))
+        .set("miri", J::Bool(cfg!(miri)))
+        .set("target_features", J::Arr(feats))
 }
 
 fn run_case(prop: &'static str, run_fn: fn(&mut Ctx), cfg: &Cfg, case_seed: u64, tier: Tier, st: &mut Stats) {
